@@ -1081,3 +1081,753 @@ fn lite_block_entries_keep_their_hash_across_the_wire() {
         if received.serialize_for_net(BlockType::Full) != bytes { witness(format!("round {}: a received lite block re-encodes to different bytes", round)); }
     }
 }
+
+/// C08: the routing work a block is credited with comes from paths the transactions really took — a single hop X->creator under a
+/// throw-away key X, put in place of the real path, must not count (known finding: hop 0 is not tied to the sender) — scenario of an
+/// independent audit
+#[tokio::test]
+#[serial_test::serial]
+async fn routing_work_counts_only_paths_that_start_at_the_sender() {
+    #[allow(unused_imports)] use crate::core::consensus::wallet::Wallet;
+    #[allow(unused_imports)] use crate::core::util::crypto::generate_keys;
+    #[allow(unused_imports)] use ahash::AHashMap;
+    use crate::core::consensus::blockchain::AddBlockResult;
+    use crate::core::consensus::burnfee::BurnFee;
+    use crate::core::consensus::hop::Hop;
+    use std::ops::Deref;
+
+    // builds a block of creator `c_public` on `parent` carrying `tx`, and says whether Block::validate takes it
+    async fn build(
+        t: &TestManager,
+        tx: &Transaction,
+        parent: SaitoHash,
+        timestamp: u64,
+        c_public: &SaitoPublicKey,
+        c_private: &SaitoPrivateKey,
+    ) -> (Block, bool) {
+        let configs = t.config_lock.read().await;
+        let blockchain = t.blockchain_lock.read().await;
+        let mut tx = tx.clone();
+        tx.generate(c_public, 0, 0);
+        let mut txs: AHashMap<crate::core::defs::SaitoSignature, Transaction> = Default::default();
+        txs.insert(tx.signature, tx);
+        let mut block = Block::create(
+            &mut txs,
+            parent,
+            blockchain.deref(),
+            timestamp,
+            c_public,
+            c_private,
+            None,
+            configs.deref(),
+            &t.storage,
+        )
+        .await
+        .unwrap();
+        block.generate().unwrap();
+        let valid = block
+            .validate(blockchain.deref(), &blockchain.utxoset, configs.deref(), &t.storage, true)
+            .await;
+        (block, valid)
+    }
+
+    let mut t = TestManager::default();
+    let ts0: u64 = 1_000_000;
+    t.initialize_with_timestamp(10, 1_000_000_000, ts0).await;
+
+    // block 2 : one heartbeat (100 ms) after block 1. block 1 has burn fee 0, so no work is needed.
+    let block2 = t
+        .create_block(t.latest_block_hash, ts0 + 100, 1, 1_000, 0, false)
+        .await;
+    let block2_hash = block2.hash;
+    let result = t.add_block(block2).await;
+    assert!(
+        matches!(result, AddBlockResult::BlockAddedSuccessfully(_, true, _)),
+        "setup: block 2 must be accepted"
+    );
+    let (parent_burnfee, parent_ts) = {
+        let blockchain = t.blockchain_lock.read().await;
+        let b = blockchain.get_block(&block2_hash).unwrap();
+        (b.burnfee, b.timestamp)
+    };
+    assert_eq!(parent_burnfee, 50_000_000, "setup: burn fee of block 2");
+
+    // block 3 comes 100 ms after block 2 : 50_000_000 / 100 = 500_000 nolan of routing work needed
+    let ts3 = parent_ts + 100;
+    let work_needed =
+        BurnFee::return_routing_work_needed_to_produce_block_in_nolan(parent_burnfee, ts3, parent_ts, 100);
+    assert_eq!(work_needed, 500_000, "setup: work needed for block 3");
+
+    // parties : S = sender (the wallet of the test manager), R = an honest router,
+    // C = the block creator, X = a throw-away key that never saw the transaction on its way
+    let (s_public, s_private) = {
+        let wallet = t.wallet_lock.read().await;
+        (wallet.public_key, wallet.private_key)
+    };
+    let (r_public, r_private) = generate_keys();
+    let (c_public, c_private) = generate_keys();
+    let (x_public, x_private) = generate_keys();
+
+    // a transaction of S paying a fee of 800_000
+    let mut tx = {
+        let mut wallet = t.wallet_lock.write().await;
+        Transaction::create(&mut wallet, s_public, 1_000, 800_000, false, None, 2, 100).unwrap()
+    };
+    tx.sign(&s_private);
+
+    // honest routing : S -> R -> C. two hops, so C holds half of the fee as work : 400_000
+    let mut tx_honest = tx.clone();
+    tx_honest
+        .path
+        .push(Hop::generate(&s_private, &s_public, &r_public, &tx_honest));
+    tx_honest
+        .path
+        .push(Hop::generate(&r_private, &r_public, &c_public, &tx_honest));
+    assert!(tx_honest.validate_routing_path(), "setup: honest path is valid");
+
+    // hostile : C throws the real path away and attaches one hop X -> C signed with X's key.
+    // S never handed the transaction to X : the path does not start at the sender.
+    let mut tx_rerooted = tx.clone();
+    tx_rerooted
+        .path
+        .push(Hop::generate(&x_private, &x_public, &c_public, &tx_rerooted));
+    assert_ne!(tx_rerooted.path[0].from, tx_rerooted.from[0].public_key);
+
+    // control : the honestly routed block is fine once no work is needed (two heartbeats) ...
+    let (block, valid) = build(&t, &tx_honest, block2_hash, parent_ts + 200, &c_public, &c_private).await;
+    assert_eq!(block.total_work, 400_000, "control: work of the honest path");
+    assert!(valid, "control: the honestly routed block validates when no work is needed");
+    // ... and is refused at 100 ms, where 400_000 < 500_000
+    let (block, valid) = build(&t, &tx_honest, block2_hash, ts3, &c_public, &c_private).await;
+    assert_eq!(block.total_work, 400_000, "control: work of the honest path");
+    assert!(!valid, "control: the honestly routed block lacks work at 100 ms and must be refused");
+
+    // the block with the re-rooted path, same timestamp
+    let (block3, _) = build(&t, &tx_rerooted, block2_hash, ts3, &c_public, &c_private).await;
+    let total_work = block3.total_work;
+    let result = t.add_block(block3).await;
+    let accepted = matches!(result, AddBlockResult::BlockAddedSuccessfully(_, _, _));
+    if !(!accepted) { witness(format!("block 3 was accepted 100 ms after its parent (burn fee 50000000, so {} nolan of routing work required) with total_work {} taken from a transaction of sender S whose only hop is X->creator signed by an unrelated key X: the path does not start at the sender, so no contiguous path carried this fee to the creator (the real path S->R->creator is worth 400000 and is refused)",
+        work_needed, total_work)); }
+}
+
+/// C08: the transactions a block producer generates (rebroadcasts, fee, issuance) bring no routing work: a hop with a garbage
+/// signature glued onto each rebroadcast must not help a block meet the work requirement — scenario of an independent audit
+#[tokio::test]
+#[serial_test::serial]
+async fn forged_hop_on_a_rebroadcast_counts_as_no_work() {
+    #[allow(unused_imports)] use crate::core::consensus::wallet::Wallet;
+    #[allow(unused_imports)] use crate::core::util::crypto::generate_keys;
+    #[allow(unused_imports)] use ahash::AHashMap;
+    use crate::core::consensus::blockchain::AddBlockResult;
+    use crate::core::consensus::burnfee::BurnFee;
+    use crate::core::consensus::hop::Hop;
+    use std::ops::Deref;
+
+    // builds a block of creator `c_public` on `parent` carrying `txs` (plus whatever rebroadcasts are due)
+    async fn build(
+        t: &TestManager,
+        txs: Vec<Transaction>,
+        golden_ticket: Option<Transaction>,
+        parent: SaitoHash,
+        timestamp: u64,
+        c_public: &SaitoPublicKey,
+        c_private: &SaitoPrivateKey,
+    ) -> Block {
+        let configs = t.config_lock.read().await;
+        let blockchain = t.blockchain_lock.read().await;
+        let mut map: AHashMap<crate::core::defs::SaitoSignature, Transaction> = Default::default();
+        for mut tx in txs {
+            tx.generate(c_public, 0, 0);
+            map.insert(tx.signature, tx);
+        }
+        let mut block = Block::create(
+            &mut map,
+            parent,
+            blockchain.deref(),
+            timestamp,
+            c_public,
+            c_private,
+            golden_ticket,
+            configs.deref(),
+            &t.storage,
+        )
+        .await
+        .unwrap();
+        block.generate().unwrap();
+        block
+    }
+    async fn validates(t: &TestManager, block: &Block) -> bool {
+        let configs = t.config_lock.read().await;
+        let blockchain = t.blockchain_lock.read().await;
+        block
+            .validate(blockchain.deref(), &blockchain.utxoset, configs.deref(), &t.storage, true)
+            .await
+    }
+
+    let mut t = TestManager::default();
+    let ts0: u64 = 1_000_000;
+    // 130 issuance outputs of 1_000_000_000 nolan in block 1 : those still unspent when block 102
+    // is made are rebroadcast by it (genesis period of the test configuration : 100)
+    t.initialize_with_timestamp(130, 1_000_000_000, ts0).await;
+
+    // S = sender (wallet of the test manager), R = router, C = creator of every block, X = a made-up key
+    let (s_public, s_private) = {
+        let wallet = t.wallet_lock.read().await;
+        (wallet.public_key, wallet.private_key)
+    };
+    let (r_public, r_private) = generate_keys();
+    let (c_public, c_private) = generate_keys();
+    let (x_public, _x_private) = generate_keys();
+
+    // blocks 2..=101, one heartbeat (100 ms) apart, each with one transaction of S (fee 2_000_000)
+    // honestly routed S -> R -> C : 1_000_000 of work for C, 500_000 needed (burn fee stays 50_000_000).
+    // every second block carries a golden ticket (the chain needs 2 in any 6 blocks)
+    for id in 2..=101u64 {
+        let parent = t.latest_block_hash;
+        let parent_ts = t.get_latest_block().await.timestamp;
+        let mut tx = {
+            let mut wallet = t.wallet_lock.write().await;
+            Transaction::create(&mut wallet, s_public, 1_000, 2_000_000, false, None, id - 1, 100).unwrap()
+        };
+        tx.sign(&s_private);
+        let hop = Hop::generate(&s_private, &s_public, &r_public, &tx);
+        tx.path.push(hop);
+        let hop = Hop::generate(&r_private, &r_public, &c_public, &tx);
+        tx.path.push(hop);
+        let golden_ticket = if id % 2 == 0 {
+            let difficulty = t.get_latest_block().await.difficulty;
+            let gt = TestManager::create_golden_ticket(t.wallet_lock.clone(), parent, difficulty).await;
+            let mut gttx = Wallet::create_golden_ticket_transaction(gt, &s_public, &s_private).await;
+            gttx.generate(&c_public, 0, 0);
+            Some(gttx)
+        } else {
+            None
+        };
+        let block = build(&t, vec![tx], golden_ticket, parent, parent_ts + 100, &c_public, &c_private).await;
+        assert_eq!(block.id, id);
+        assert_eq!(block.total_work, 1_000_000, "setup: work of block {}", id);
+        let result = t.add_block(block).await;
+        assert!(
+            matches!(result, AddBlockResult::BlockAddedSuccessfully(_, true, _)),
+            "setup: block {} must be accepted",
+            id
+        );
+    }
+    let parent = t.get_latest_block().await;
+    assert_eq!(parent.id, 101);
+    assert_eq!(parent.burnfee, 50_000_000, "setup: burn fee of block 101");
+    assert!(parent.avg_fee_per_byte > 0, "setup: rebroadcasts pay a fee");
+    let work_needed = BurnFee::return_routing_work_needed_to_produce_block_in_nolan(
+        parent.burnfee,
+        parent.timestamp + 100,
+        parent.timestamp,
+        100,
+    );
+    assert_eq!(work_needed, 500_000, "setup: work needed 100 ms after block 101");
+
+    // control 1 : block 102 with nothing but the rebroadcasts that are due is a valid block
+    // when no work is needed (two heartbeats after the parent)
+    let honest_late = build(&t, vec![], None, parent.hash, parent.timestamp + 200, &c_public, &c_private).await;
+    let atr_count = honest_late
+        .transactions
+        .iter()
+        .filter(|tx| tx.transaction_type == TransactionType::ATR)
+        .count();
+    assert!(atr_count > 0, "setup: block 102 carries rebroadcasts");
+    assert_eq!(honest_late.transactions.len(), atr_count);
+    assert_eq!(honest_late.total_work, 0, "control: rebroadcasts carry no routing work");
+    assert!(validates(&t, &honest_late).await, "control: honest block 102 validates at +200 ms");
+
+    // control 2 : the same block 100 ms after the parent has 0 < 500_000 work and is refused
+    let honest_early = build(&t, vec![], None, parent.hash, parent.timestamp + 100, &c_public, &c_private).await;
+    assert_eq!(honest_early.total_work, 0);
+    assert!(
+        !validates(&t, &honest_early).await,
+        "control: honest block 102 at +100 ms lacks routing work and must be refused"
+    );
+
+    // hostile : same block, but the creator glues a hop X -> C with an all-zero signature onto
+    // every rebroadcast transaction. nobody routed anything, nobody signed anything.
+    let mut hostile = build(&t, vec![], None, parent.hash, parent.timestamp + 100, &c_public, &c_private).await;
+    let mut atr_fees: Currency = 0;
+    for tx in hostile.transactions.iter_mut() {
+        assert_eq!(tx.transaction_type, TransactionType::ATR);
+        tx.path.push(Hop {
+            from: x_public,
+            to: c_public,
+            sig: [0; 64],
+        });
+        assert!(!tx.validate_routing_path(), "setup: the glued-on hop is not validly signed");
+        atr_fees += tx.total_fees;
+    }
+    assert!(atr_fees >= work_needed, "setup: rebroadcast fees {} cover the work needed", atr_fees);
+    hostile.merkle_root = hostile.generate_merkle_root(false, false);
+    hostile.generate_pre_hash();
+    hostile.sign(&c_private);
+    hostile.generate().unwrap();
+    let total_work = hostile.total_work;
+
+    let result = t.add_block(hostile).await;
+    let accepted = matches!(result, AddBlockResult::BlockAddedSuccessfully(_, _, _));
+    if !(!accepted) { witness(format!("block 102 was accepted 100 ms after its parent ({} nolan of routing work required) with total_work {} that comes only from hops X->creator with an all-zero signature glued onto its {} rebroadcast (ATR) transactions: rebroadcasts skip validate_routing_path, so work was counted over paths that are not cryptographically valid (the same block without the forged hops has work 0 and is refused)",
+        work_needed, total_work, atr_count)); }
+}
+
+/// C02: a golden ticket naming the all-zero key as its solver loses nobody's money — the miner's share goes to the graveyard like a
+/// router's share the lottery could not place — scenario of an independent audit
+#[tokio::test]
+#[serial_test::serial]
+async fn miner_share_under_the_zero_key_is_not_lost() {
+    #[allow(unused_imports)] use crate::core::consensus::wallet::Wallet;
+    #[allow(unused_imports)] use crate::core::util::crypto::generate_keys;
+    #[allow(unused_imports)] use ahash::AHashMap;
+    use crate::core::consensus::blockchain::Blockchain;
+    use crate::core::consensus::golden_ticket::GoldenTicket;
+    use crate::core::util::crypto::{generate_random_bytes, hash};
+    use futures::FutureExt;
+    use std::ops::Deref;
+
+    // the quantity the property talks about, in unbounded (u128) arithmetic
+    fn audit_supply(blockchain: &Blockchain, genesis_period: u64) -> u128 {
+        let latest = blockchain.get_latest_block().expect("a latest block");
+        let mut supply: u128 = 0;
+        for (key, spendable) in blockchain.utxoset.iter() {
+            if !*spendable {
+                continue;
+            }
+            let slip = Slip::parse_slip_from_utxokey(key).unwrap();
+            if slip.slip_type == SlipType::Bound {
+                continue;
+            }
+            if slip.block_id < latest.id.saturating_sub(genesis_period) {
+                continue;
+            }
+            supply += slip.amount as u128;
+        }
+        supply
+            + latest.treasury as u128
+            + latest.graveyard as u128
+            + latest.previous_block_unpaid as u128
+            + latest.total_fees as u128
+    }
+
+    // a block on the tip with `txs` transactions paying `fee` each and a golden ticket, valid for
+    // the tip's difficulty, that names `miner_key` as the miner
+    async fn audit_block_with_ticket(
+        t: &mut TestManager,
+        miner_key: SaitoPublicKey,
+        txs: usize,
+        fee: Currency,
+    ) -> Block {
+        let configs = t.config_lock.read().await;
+        let genesis_period = configs.get_consensus_config().unwrap().genesis_period;
+        let blockchain = t.blockchain_lock.read().await;
+        let parent = blockchain.get_latest_block().unwrap();
+        let parent_hash = parent.hash;
+        let (public_key, private_key) = {
+            let wallet = t.wallet_lock.read().await;
+            (wallet.public_key, wallet.private_key)
+        };
+        let mut transactions: AHashMap<crate::core::defs::SaitoSignature, Transaction> =
+            Default::default();
+        for _ in 0..txs {
+            let mut tx = {
+                let mut wallet = t.wallet_lock.write().await;
+                Transaction::create(
+                    &mut wallet,
+                    public_key,
+                    100,
+                    fee,
+                    false,
+                    None,
+                    parent.id,
+                    genesis_period,
+                )
+                .unwrap()
+            };
+            tx.sign(&private_key);
+            tx.generate(&public_key, 0, 0);
+            transactions.insert(tx.signature, tx);
+        }
+        let ticket = loop {
+            let random = hash(&generate_random_bytes(32).await);
+            let ticket = GoldenTicket::create(parent_hash, random, miner_key);
+            if ticket.validate(parent.difficulty) {
+                break ticket;
+            }
+        };
+        let mut gttx =
+            Wallet::create_golden_ticket_transaction(ticket, &public_key, &private_key).await;
+        gttx.generate(&public_key, 0, 0);
+        Block::create(
+            &mut transactions,
+            parent_hash,
+            blockchain.deref(),
+            parent.timestamp + 120_000,
+            &public_key,
+            &private_key,
+            Some(gttx),
+            configs.deref(),
+            &t.storage,
+        )
+        .await
+        .unwrap()
+    }
+
+    let genesis_period: u64 = 100;
+    let mut t = TestManager::default();
+    t.initialize(30, 1_000_000).await;
+    let my_key = t.wallet_lock.read().await.public_key;
+
+    let issued: u128 = {
+        let blockchain = t.blockchain_lock.read().await;
+        audit_supply(&blockchain, genesis_period)
+    };
+    assert_eq!(issued, 30_000_000, "setup: the genesis block issues 30 x 1000000 nolan");
+
+    // block 2: transactions paying 10000 nolan each, no golden ticket
+    let block2 = t
+        .create_block(
+            t.latest_block_hash,
+            t.get_latest_block().await.timestamp + 120_000,
+            5,
+            100,
+            10_000,
+            false,
+        )
+        .await;
+    t.add_block(block2).await;
+    {
+        let blockchain = t.blockchain_lock.read().await;
+        assert_eq!(blockchain.get_latest_block_id(), 2);
+        assert!(
+            blockchain.get_latest_block().unwrap().total_fees >= 10_000,
+            "setup: block 2 collects fees"
+        );
+        assert_eq!(audit_supply(&blockchain, genesis_period), issued);
+    }
+
+    // control, block 3: a golden ticket that names a real key pays out the fees of block 2 and
+    // conserves the supply
+    let block3 = audit_block_with_ticket(&mut t, my_key, 5, 10_000).await;
+    let honest_miner_payout = block3.total_payout_mining;
+    t.add_block(block3).await;
+    {
+        let blockchain = t.blockchain_lock.read().await;
+        let block = blockchain.get_latest_block().unwrap();
+        assert_eq!(block.id, 3, "control: the block with an honest golden ticket is accepted");
+        assert!(block.has_golden_ticket && block.has_fee_transaction);
+        assert!(honest_miner_payout > 0);
+        if !(block.transactions[block.fee_transaction_index as usize]
+                .to
+                .iter()
+                .any(|s| s.slip_type == SlipType::MinerOutput
+                    && s.amount == honest_miner_payout)) { witness(format!("control: the miner named by the ticket is paid {} nolan",
+            honest_miner_payout)); }
+        assert_eq!(
+            audit_supply(&blockchain, genesis_period),
+            issued,
+            "control: the payout of block 3 conserves the supply"
+        );
+    }
+
+    // block 4: the same, but the ticket names the all-zero key as miner
+    let block4 = audit_block_with_ticket(&mut t, [0u8; 33], 5, 10_000).await;
+    let dropped = block4.total_payout_mining;
+    assert!(dropped > 0, "setup: a miner payout is due for the fees of block 3");
+    let block4_hash = block4.hash;
+    // (the node's own check aborts the process once the block has been wound in)
+    let outcome = std::panic::AssertUnwindSafe(t.add_block(block4))
+        .catch_unwind()
+        .await;
+    let node_aborted = outcome.is_err();
+
+    let blockchain = t.blockchain_lock.read().await;
+    assert_eq!(
+        blockchain.get_latest_block_hash(),
+        block4_hash,
+        "setup: block 4 passed Block::validate and was wound in as the tip"
+    );
+    let block = blockchain.get_latest_block().unwrap();
+    assert!(block.has_golden_ticket);
+    let paid_out: u64 = block
+        .transactions
+        .iter()
+        .filter(|t| t.transaction_type == TransactionType::Fee)
+        .flat_map(|t| t.to.iter())
+        .map(|s| s.amount)
+        .sum();
+    let after = audit_supply(&blockchain, genesis_period);
+    assert_eq!(
+        after,
+        issued,
+        "the golden ticket of block 4 names the all-zero key as miner: the miner's share of block 3's fees, {} nolan (block.total_payout_mining), is neither paid out (the fee transaction pays {} nolan in total, to the router) nor added to the graveyard ({}) or treasury ({}): spendable outputs + treasury + graveyard + unpaid + tip fees = {} instead of the {} issued, {} nolan are lost (node aborted in check_total_supply: {})",
+        dropped,
+        paid_out,
+        block.total_payout_graveyard,
+        block.total_payout_treasury,
+        after,
+        issued,
+        issued - after,
+        node_aborted
+    );
+}
+
+/// C13/C02: the payload of an NFT-bound group comes back from its rebroadcast with value x multiplier MINUS the rebroadcast fee
+/// the block books for it — built through Block::create like any block (scenario of an independent audit; replaces the earlier twin
+/// that copied the call site by hand)
+#[tokio::test]
+#[serial_test::serial]
+async fn nft_group_rebroadcast_pays_the_fee() {
+    #[allow(unused_imports)] use crate::core::util::crypto::generate_keys;
+    #[allow(unused_imports)] use ahash::AHashMap;
+    #[allow(unused_imports)] use crate::core::consensus::wallet::Wallet;
+    #[allow(unused_imports)] use crate::core::util::test::test_manager::test::TestManager;
+    #[allow(unused_imports)] use crate::core::consensus::slip::Slip;
+    #[allow(unused_imports)] use crate::core::consensus::slip::SlipType;
+    #[allow(unused_imports)] use crate::core::defs::Currency;
+    #[allow(unused_imports)] use crate::core::consensus::transaction::Transaction;
+    #[allow(unused_imports)] use crate::core::consensus::transaction::TransactionType;
+    #[allow(unused_imports)] use crate::core::consensus::block::Block;
+    #[allow(unused_imports)] use crate::core::defs::SaitoPublicKey;
+    use crate::core::consensus::blockchain::{AddBlockResult, Blockchain};
+    use crate::core::util::configuration::{
+        BlockchainConfig, Configuration, ConsensusConfig, PeerConfig, Server,
+    };
+    use std::sync::Arc;
+    use tokio::sync::RwLock;
+
+    // a configuration with a short retention window (genesis_period = 10), so that the window
+    // wraps within a few blocks; everything else as in TestManager::default()
+    #[derive(Debug)]
+    struct Cfg {
+        consensus: ConsensusConfig,
+        blockchain: BlockchainConfig,
+        peers: Vec<PeerConfig>,
+    }
+    impl Configuration for Cfg {
+        fn get_server_configs(&self) -> Option<&Server> {
+            None
+        }
+        fn get_peer_configs(&self) -> &Vec<PeerConfig> {
+            &self.peers
+        }
+        fn get_blockchain_configs(&self) -> &BlockchainConfig {
+            &self.blockchain
+        }
+        fn get_block_fetch_url(&self) -> String {
+            "".to_string()
+        }
+        fn is_spv_mode(&self) -> bool {
+            false
+        }
+        fn is_browser(&self) -> bool {
+            false
+        }
+        fn replace(&mut self, _config: &dyn Configuration) {}
+        fn get_consensus_config(&self) -> Option<&ConsensusConfig> {
+            Some(&self.consensus)
+        }
+    }
+    // an honest block on the current tip: Block::create with the golden ticket handed over the
+    // way the mempool does (TestManager::create_block puts it among the normal transactions,
+    // which sets previous_block_unpaid wrongly as soon as blocks carry fees)
+    async fn mk_block(t: &mut TestManager, txs: Vec<Transaction>, with_gt: bool, ts: u64) -> Block {
+        let (public_key, private_key) = {
+            let w = t.wallet_lock.read().await;
+            (w.public_key, w.private_key)
+        };
+        let parent_hash = t.latest_block_hash;
+        let mut map: AHashMap<crate::core::defs::SaitoSignature, Transaction> =
+            Default::default();
+        for tx in txs {
+            map.insert(tx.signature, tx);
+        }
+        let mut gt_tx = None;
+        if with_gt {
+            let difficulty = {
+                let bc = t.blockchain_lock.read().await;
+                bc.get_block(&parent_hash).unwrap().difficulty
+            };
+            let gt = TestManager::create_golden_ticket(
+                t.wallet_lock.clone(),
+                parent_hash,
+                difficulty,
+            )
+            .await;
+            let mut gttx =
+                Wallet::create_golden_ticket_transaction(gt, &public_key, &private_key).await;
+            gttx.generate(&public_key, 0, 0);
+            gt_tx = Some(gttx);
+        }
+        let configs = t.config_lock.read().await;
+        let blockchain = t.blockchain_lock.read().await;
+        let mut block = Block::create(
+            &mut map,
+            parent_hash,
+            &blockchain,
+            ts,
+            &public_key,
+            &private_key,
+            gt_tx,
+            &*configs,
+            &t.storage,
+        )
+        .await
+        .unwrap();
+        block.generate().unwrap();
+        block.sign(&private_key);
+        block
+    }
+    // a signed payment from the node's wallet
+    async fn mk_tx(
+        t: &mut TestManager,
+        to: SaitoPublicKey,
+        amount: Currency,
+        fee: Currency,
+        gp: u64,
+    ) -> Transaction {
+        let latest = t.blockchain_lock.read().await.get_latest_block_id();
+        let mut w = t.wallet_lock.write().await;
+        let pk = w.public_key;
+        let sk = w.private_key;
+        let mut tx =
+            Transaction::create(&mut w, to, amount, fee, false, None, latest, gp).unwrap();
+        tx.sign(&sk);
+        tx.generate(&pk, 0, 0);
+        tx
+    }
+
+    let gp: u64 = 10;
+    let mut t = TestManager::default();
+    t.config_lock = Arc::new(RwLock::new(Cfg {
+        consensus: ConsensusConfig {
+            genesis_period: gp,
+            heartbeat_interval: 100,
+            prune_after_blocks: 8,
+            max_staker_recursions: 3,
+            default_social_stake: 0,
+            default_social_stake_period: 60,
+        },
+        blockchain: BlockchainConfig::default(),
+        peers: vec![],
+    }));
+    {
+        let mut bc = t.blockchain_lock.write().await;
+        *bc = Blockchain::new(t.wallet_lock.clone(), gp, 0, 60);
+    }
+    // block 1: one issuance slip of 10_000_000 for the node's wallet
+    t.initialize_with_timestamp(1, 10_000_000, 1_000_000).await;
+    let nft_owner = generate_keys().0;
+    let plain_owner = generate_keys().0;
+    let other_pk = generate_keys().0;
+    let (my_pk, my_sk) = {
+        let w = t.wallet_lock.read().await;
+        (w.public_key, w.private_key)
+    };
+
+    // block 2: one create-NFT transaction. outputs: [Bound 1][Normal 5000 -> nft_owner][Bound 0]
+    // [Normal 5000 -> plain_owner][change]. the plain 5000 output is the control: same
+    // transaction, same amount, same rebroadcast fee.
+    let nft_tx = {
+        let input = {
+            let bc = t.blockchain_lock.read().await;
+            let b1 = bc.get_latest_block().unwrap();
+            assert_eq!(b1.id, 1);
+            b1.transactions
+                .iter()
+                .flat_map(|tx| tx.to.iter())
+                .find(|s| s.public_key == my_pk && s.amount == 10_000_000)
+                .unwrap()
+                .clone()
+        };
+        let mut tx = Transaction::default();
+        tx.transaction_type = TransactionType::Bound;
+        tx.timestamp = 1_000_001;
+        tx.add_from_slip(input.clone());
+        tx.add_to_slip(Slip {
+            public_key: my_pk,
+            amount: 1,
+            slip_type: SlipType::Bound,
+            ..Default::default()
+        });
+        tx.add_to_slip(Slip {
+            public_key: nft_owner,
+            amount: 5000,
+            ..Default::default()
+        });
+        tx.add_to_slip(Slip {
+            public_key: Wallet::create_nft_uuid(&input, "audit"),
+            amount: 0,
+            slip_type: SlipType::Bound,
+            ..Default::default()
+        });
+        tx.add_to_slip(Slip {
+            public_key: plain_owner,
+            amount: 5000,
+            ..Default::default()
+        });
+        tx.add_to_slip(Slip {
+            public_key: my_pk,
+            // no fee: the fee of a Bound transaction is not counted by the block (see report)
+            amount: 10_000_000 - 5000 - 5000,
+            ..Default::default()
+        });
+        tx.sign(&my_sk);
+        tx.generate(&my_pk, 0, 0);
+        tx
+    };
+    let ts = t.get_latest_block().await.timestamp + 120_000;
+    let block2 = mk_block(&mut t, vec![nft_tx], true, ts).await;
+    let res = t.add_block(block2).await;
+    assert!(matches!(res, AddBlockResult::BlockAddedSuccessfully(..)), "setup: the block with the create-NFT transaction is accepted");
+
+    // blocks 3..=12: ordinary payments with a fee of 6000, so that there is a fee level
+    for i in 3..=12u64 {
+        let ts = t.get_latest_block().await.timestamp + 120_000;
+        let tx = mk_tx(&mut t, other_pk, 5000, 6000, gp).await;
+        let block = mk_block(&mut t, vec![tx], i % 2 == 0, ts).await;
+        let res = t.add_block(block).await;
+        assert!(matches!(res, AddBlockResult::BlockAddedSuccessfully(..)), "setup: block {} is accepted", i);
+    }
+
+    // block 13 = 2 + genesis_period + 1 rebroadcasts what is left unspent of block 2
+    let ts = t.get_latest_block().await.timestamp + 120_000;
+    let tx = mk_tx(&mut t, other_pk, 5000, 6000, gp).await;
+    let block13 = mk_block(&mut t, vec![tx], false, ts).await;
+    let atr: Vec<Transaction> = block13
+        .transactions
+        .iter()
+        .filter(|tx| tx.transaction_type == TransactionType::ATR)
+        .cloned()
+        .collect();
+    let (fees_atr, payout_atr) = (block13.total_fees_atr, block13.total_payout_atr);
+    // the block passes the node's own validation (it is not added here: Blockchain::add_block
+    // would accept it and then panic in check_total_supply over the nolan created below)
+    {
+        let bc = t.blockchain_lock.read().await;
+        let configs = t.config_lock.read().await;
+        let valid = block13
+            .validate(&bc, &bc.utxoset, &*configs, &t.storage, true)
+            .await;
+        assert!(valid, "setup: block 13 with the rebroadcasts passes Block::validate");
+    }
+    assert_eq!(payout_atr, 0, "setup: no treasury payout in this history");
+
+    let plain = atr
+        .iter()
+        .find(|tx| tx.to.len() == 1 && tx.to[0].public_key == plain_owner)
+        .expect("setup: the plain output is rebroadcast");
+    let nft = atr
+        .iter()
+        .find(|tx| tx.to.len() == 3 && tx.to[1].public_key == nft_owner)
+        .expect("setup: the NFT group is rebroadcast");
+    assert_eq!(atr.len(), 2, "setup: two rebroadcasts (the change was spent in block 3)");
+    assert_eq!(fees_atr % 2, 0);
+    let fee = fees_atr / 2; // both come from the same transaction, so both owe the same fee
+    assert!(fee > 0 && fee < 5000, "setup: there is a rebroadcast fee and 5000 nolan can pay it");
+    // control: the plain output pays the fee
+    assert_eq!(plain.to[0].amount, 5000 - fee, "control: a plain 5000-nolan output reappears as 5000 minus the fee");
+    if !((nft.to[1].amount) == (5000 - fee)) { witness(format!("the 5000-nolan payload slip of the NFT group of block 2 reappears in block 13 with {} nolan although block 13 books a rebroadcast fee of {} nolan for it (total_fees_atr {} for two rebroadcasts; the plain 5000-nolan output of the same transaction reappears with {}): the fee is paid out to miners/routers without being taken from the owner, {} nolan are created", nft.to[1].amount, fee, fees_atr, plain.to[0].amount, fee)); }
+}
